@@ -17,16 +17,33 @@ sys.path.insert(0, HERE)
 from mutants import MUTANTS  # noqa
 
 
+SCRATCH = None
+
+
+def scratch():
+    """a private copy of /repo (never the repository itself) in which mutants are applied"""
+    global SCRATCH
+    if SCRATCH is None:
+        import tempfile
+        SCRATCH = tempfile.mkdtemp(prefix='axl-mut-', dir='/var/tmp')
+        subprocess.check_call(['rsync', '-a', '--exclude', '/target', '--exclude', '/.git', '--exclude', 'test_snapshots',
+                               REPO + '/', SCRATCH + '/repo/'])
+        os.makedirs(SCRATCH + '/ev')
+    return SCRATCH
+
+
 def run(m):
-    path = os.path.join(REPO, m['file'])
+    sc = scratch()
+    path = os.path.join(sc, 'repo', m['file'])
     src = open(path).read()
     n = src.count(m['find'])
     if n != 1:
         return 'SKIP(find matches %d times)' % n, ''
     try:
         open(path, 'w').write(src.replace(m['find'], m['replace']))
-        r = subprocess.run([os.path.join(VERIF, 'check'), m['prop']], cwd=VERIF, stdout=subprocess.PIPE,
-                           stderr=subprocess.STDOUT, text=True)
+        env = dict(os.environ, VERIF_REPO=os.path.join(sc, 'repo'), VERIF_EVIDENCE_DIR=os.path.join(sc, 'ev'), VERIF_TIER='quick')
+        r = subprocess.run([os.path.join(VERIF, 'check'), m['prop'], '--tier', 'quick'], cwd=VERIF, stdout=subprocess.PIPE,
+                           stderr=subprocess.STDOUT, text=True, env=env)
         out = r.stdout
     finally:
         open(path, 'w').write(src)
@@ -50,10 +67,6 @@ def main():
         for m in sel:
             print(m['prop'], m['id'])
         return 0
-    dirty = subprocess.run(['git', '-C', REPO, 'status', '--porcelain'], stdout=subprocess.PIPE, text=True).stdout.strip()
-    if dirty:
-        print('refusing: /repo has uncommitted changes')
-        return 2
     res = {}
     bad = 0
     for m in sel:
@@ -67,7 +80,9 @@ def main():
         print('%-4s %-44s %s%s' % (m['prop'], m['id'], st, flag))
         if '-v' in args and flag:
             print(out)
-    subprocess.run(['git', '-C', REPO, 'checkout', '--', '.'])
+    if SCRATCH:
+        import shutil
+        shutil.rmtree(SCRATCH, ignore_errors=True)
     print('mutants: %d, problems: %d' % (len(sel), bad))
     return 1 if bad else 0
 
